@@ -59,7 +59,12 @@ func init() {
 		if err != nil {
 			return nil, err
 		}
-		obs := map[string]interface{}{"flat_src": string(flat), "paren_src": string(paren)}
+		// the unparenthesised form once more, with no blank between an alphabetic operator and a sign, quote or bracket next to it
+		compact, err := Unparse([]Node{{K: "print", X: &c.Flat}}, Spelling{Compact: true})
+		if err != nil {
+			return nil, err
+		}
+		obs := map[string]interface{}{"flat_src": string(flat), "paren_src": string(paren), "compact_src": string(compact)}
 		render := func(src []byte, prefix string) error {
 			ctx, err := buildCtx(c.Ctx)
 			if err != nil {
@@ -80,6 +85,9 @@ func init() {
 			return nil, err
 		}
 		if err := render(paren, "paren"); err != nil {
+			return nil, err
+		}
+		if err := render(compact, "compact"); err != nil {
 			return nil, err
 		}
 		rec := &recorder{srcs: map[string][]byte{"t": flat}, failedAt: -1}
